@@ -182,7 +182,9 @@ func main() {
 				fmt.Fprintf(os.Stderr, "... %s paths=%d queries=%d depth=%d viol=%d\n", *fnName, m.paths, m.solver.Queries, len(m.trace), len(res.Violations))
 			}
 			for _, v := range m.violations {
-				k := v.ID + "|" + v.Known
+				// one counterexample per assertion and per set of injected failures: the driver
+				// prefers one it can reproduce at system-call level (no failure, or injectable ones)
+				k := v.ID + "|" + v.Known + "|" + faultSignature(v.OSTrace)
 				if !seenViol[k] {
 					seenViol[k] = true
 					res.Violations = append(res.Violations, v)
@@ -469,4 +471,14 @@ func mergeResult(dst, src *result) {
 	}
 	dst.Inconclusive = append(dst.Inconclusive, src.Inconclusive...)
 	dst.CrossVal = append(dst.CrossVal, src.CrossVal...)
+}
+
+func faultSignature(trace []string) string {
+	var ops []string
+	for _, e := range trace {
+		if strings.HasSuffix(e, "injected FAILED") {
+			ops = append(ops, strings.SplitN(e, " ", 2)[0])
+		}
+	}
+	return strings.Join(ops, ",")
 }
